@@ -94,9 +94,6 @@ func zipContains(raw, sig []byte, msoCheck bool) bool {
 	}
 
 	for i := 0; i < 4; i++ {
-		if !b.advance(0x1A) {
-			return false
-		}
 		nextHeader = bytes.Index(b, pk)
 		if nextHeader == -1 {
 			return false
